@@ -455,7 +455,9 @@ def run(ctx):
     from spectrum.levinson import rlevinson, levdown
     rng = ctx.rng
     ctx.check_theorems('Properties/C11.v')
-    loopir_tie(ctx, ['LEVINSON', 'levup', 'levdown'])      # IR programs regenerated from the source vs the hand models: exact, zero tolerance
+    # IR programs regenerated from the source vs the hand models: exact, zero tolerance.  rlevinson (2-D array U, column stores, the call of
+    # levdown) is translated too: `run program (a, efinal)` = Model.LinPred.rlevinson, same outcome, every entry of R, U, kr, e
+    loopir_tie(ctx, ['LEVINSON', 'levup', 'levdown', 'rlevinson'])
 
     def call(f, *args):
         try:
